@@ -58,6 +58,11 @@ Plan generate(const std::string& prop, int tier, uint64_t batchSeed, uint64_t id
             for (auto& it : p.items)
                 if (it.tag == "op" && it.get("k") == OP_STATUPD && it.get("kind", wire::K_IFSTAT) == wire::K_IFSTAT && r.chance(1, 3))
                     it.set("cut", static_cast<int64_t>(r.below(32)));
+            // C20 has no "without NUL" restriction (that is C13's): capture-module strings that bring their own terminator,
+            // or carry a NUL in the middle (views taken from fixed-size char arrays)
+            for (auto& it : p.items)
+                if (it.tag == "op" && it.get("k") == OP_BUILD && it.get("cls", 0) == wire::K_CMSTAT && r.chance(1, 3))
+                    it.set("nul", static_cast<int64_t>(1 + r.below(255)));
         }
         return p;
     }
@@ -395,6 +400,17 @@ Plan genCodec(const std::string& prop, int tier, uint64_t batchSeed, uint64_t id
                 g.fillMsg(m, kinds, maxB, freeBytes, maxFramesPerMsg);
                 if (swarmOfTiny)
                     m.set("kind", 0).set("len", swarmLen ? (i + 3 >= nMsg ? r.range(20, 70) : swarmLen) : r.range(1, 4)).set("mtype", 1).set("ptype", 0x20);
+                if ((c09 || c10) && !swarmOfTiny && r.chance(1, 12))
+                {
+                    // C09 / C10 put no restriction on the batch: a packet with an EMPTY payload, or one whose message type is 0
+                    // ("undefined" - what a decoder hands out for a payload it could not validate, relayed), in the middle of
+                    // otherwise ordinary packets, or first in the batch
+                    m.set("kind", 0).set("ptype", 0x20);
+                    if (r.chance(1, 2))
+                        m.set("len", 0).set("zerolen", 1).set("mtype", r.pick<int64_t>({1, 3, 2, 0xFF}));
+                    else
+                        m.set("mtype", 0).set("mtype0", 1).set("len", r.range(1, 40));
+                }
                 if (manyFrames && i == 0)
                 {
                     // one frame per message: 250..600 of them
